@@ -74,6 +74,8 @@ pub fn profile(name: &str) -> Profile {
         churn_thread: true,
         tags: false,
         choreo: false,
+        choreo_weak_revive: false,
+        no_pool: false,
     };
     match name {
         "c01" => {
@@ -83,7 +85,7 @@ pub fn profile(name: &str) -> Profile {
                 (K::Cas, 6), (K::CasWeak, 2), (K::Load, 8), (K::Counted, 10), (K::Downgrade, 6), (K::WeakDrop, 2),
                 (K::Upgrade, 12), (K::WeakSnap, 2), (K::WsUpgrade, 3), (K::Pin, 3), (K::Unpin, 6), (K::Churn, 10),
                 (K::Deref, 12), (K::NewMany, 2), (K::NewIter, 2), (K::IterNext, 3), (K::IterDrop, 1), (K::IterAbort, 1),
-                (K::Flush, 2), (K::LinkChain, 1), (K::WLoad, 1), (K::WStore, 1),
+                (K::Flush, 2), (K::LinkChain, 1), (K::WLoad, 1), (K::WStore, 1), (K::WeakMany, 3), (K::WeakClone, 1),
             ]);
             p.stall_sites = vec![
                 S::INCS_ADD2, S::INCS_ADD2, S::INCS_ADD2, S::INCS_ADD1, S::DECS_LOAD, S::DECS_CAS, S::DECS_DEFER, S::TD_LOAD,
@@ -272,6 +274,73 @@ pub fn profile(name: &str) -> Profile {
             p.roles = vec![reader, unlinker, reader_clone()];
             p.stall_sites = vec![S::COLLECT_AFTER_ADVANCE, S::COLLECT_AFTER_ADVANCE, S::COLLECT_POP, S::BAG_CALL, S::TD_LOAD, S::DISP_LOAD, S::DISP_CHILD, S::DISP_SIBLING, S::DISP_CHILD_CAS];
         }
+        "c16rc" => {
+            // explicit flushes under a long-lived guard while other threads retire long chains
+            p.name = "c16rc";
+            p.prefill = 16;
+            p.long_chain = 400;
+            p.threads = (2, 3);
+            let flusher = Role {
+                name: "flusher",
+                weights: w(&[(K::Pin, 2), (K::Load, 7), (K::Flush, 16), (K::Deref, 5), (K::WLoad, 2), (K::WsUpgrade, 2)]),
+                ops: (12, 40),
+            };
+            let retirer = Role {
+                name: "retirer",
+                weights: w(&[(K::LinkChain, 10), (K::DropRc, 12), (K::Flush, 3), (K::Unpin, 5), (K::Churn, 3), (K::Swap, 8), (K::Store, 5)]),
+                ops: (8, 28),
+            };
+            p.roles = vec![flusher, retirer];
+            p.stall_sites = vec![S::COLLECT_AFTER_ADVANCE, S::COLLECT_POP, S::BAG_CALL, S::DISP_REPIN, S::DISP_REPIN, S::ADV_STORE, S::UNPIN_COLLECT, 120];
+        }
+        "c03g" => {
+            // "late weak reader against a due try_dealloc of a revived weak count"
+            p.name = "c03g";
+            p.choreo = true;
+            p.choreo_weak_revive = true;
+            p.prefill = 8;
+            p.threads = (3, 4);
+            p.nwroots = 2;
+            p.churn_thread = false;
+            let reader = Role {
+                name: "late-weak-reader",
+                weights: w(&[(K::WLoad, 14), (K::WsCounted, 4), (K::WsUpgrade, 5), (K::WeakSnap, 2), (K::Deref, 8), (K::Load, 2)]),
+                ops: (3, 9),
+            };
+            let unlinker = Role {
+                name: "late-weak-unlinker",
+                weights: w(&[(K::WSwap, 12), (K::WeakDrop, 12), (K::WStore, 4), (K::WLoad, 3), (K::Deref, 2)]),
+                ops: (2, 7),
+            };
+            p.roles = vec![reader, unlinker];
+            p.stall_sites = vec![S::COLLECT_AFTER_ADVANCE, S::COLLECT_AFTER_ADVANCE, S::COLLECT_POP, S::COLLECT_POP, S::BAG_CALL, S::BAG_CALL, S::TRY_DEALLOC_LOAD, S::DECW_SUB];
+        }
+        "c03h" => {
+            // first downgrade of an object racing with updates of its strong count
+            p.name = "c03h";
+            p.no_pool = true;
+            p.prefill = 16;
+            p.threads = (3, 4);
+            p.nroots = 2;
+            p.nwroots = 1;
+            let downgrader = Role {
+                name: "first-downgrader",
+                weights: w(&[(K::Load, 8), (K::Counted, 8), (K::Downgrade, 14), (K::WeakDrop, 3), (K::DropRc, 5), (K::Deref, 4), (K::Unpin, 3), (K::Upgrade, 2), (K::New, 3)]),
+                ops: (6, 20),
+            };
+            let churner = Role {
+                name: "strong-churner",
+                weights: w(&[(K::Load, 8), (K::Counted, 8), (K::Clone, 8), (K::DropRc, 10), (K::Unpin, 3), (K::Finalize, 2), (K::Deref, 2)]),
+                ops: (6, 20),
+            };
+            let dropper = Role {
+                name: "dropper",
+                weights: w(&[(K::Store, 8), (K::Swap, 6), (K::DropRc, 8), (K::Churn, 10), (K::Unpin, 3), (K::Flush, 2)]),
+                ops: (4, 14),
+            };
+            p.roles = vec![downgrader, churner, dropper];
+            p.stall_sites = vec![S::INCW_CAS, S::INCW_CAS, S::INCW_CAS, S::INCW_CAS, S::INCW_LOAD, S::INCW_ADD1, S::DISP_WEAKED, S::DECS_CAS, 120];
+        }
         "c01g" => {
             // "late upgrader against a due destruction attempt"
             p.name = "c01g";
@@ -349,7 +418,7 @@ fn build_prefill(rng: &mut Rng, prof: &Profile, g: &circ::Guard, pool: &mut Vec<
         let mask = *rng.pick(&[3u8, 3, 3, 3, 1, 2, 0]);
         let (r, id) = new_node(mask);
         // weak handles to some of the nodes (used for weak roots and for second strong owners)
-        if rng.chance(1, 2) {
+        if !prof.no_pool && rng.chance(1, 2) {
             pool.borrow_mut().push((r.downgrade(), id));
         }
         (r, id)
@@ -369,7 +438,7 @@ fn build_prefill(rng: &mut Rng, prof: &Profile, g: &circ::Guard, pool: &mut Vec<
                 if !tail.is_null() {
                     let k = rng.below(2) as usize;
                     // weak back-pointer from child to parent sometimes
-                    if rng.chance(1, 3) {
+                    if !prof.no_pool && rng.chance(1, 3) {
                         tail.as_ref().unwrap().back.store(r.downgrade(), SeqCst, g);
                     }
                     r.as_ref().unwrap().next[k].store(tail, SeqCst, g);
@@ -384,7 +453,7 @@ fn build_prefill(rng: &mut Rng, prof: &Profile, g: &circ::Guard, pool: &mut Vec<
             let (p, pid) = mk(rng);
             let (a, _) = mk(rng);
             let (b, _) = mk(rng);
-            if rng.chance(1, 2) {
+            if !prof.no_pool && rng.chance(1, 2) {
                 a.as_ref().unwrap().back.store(p.downgrade(), SeqCst, g);
             }
             p.as_ref().unwrap().next[0].store(a, SeqCst, g);
@@ -424,7 +493,9 @@ fn build_prefill(rng: &mut Rng, prof: &Profile, g: &circ::Guard, pool: &mut Vec<
             let n = rng.range(130, prof.long_chain as u64) as usize;
             let mut nodes: Vec<(Rc<VNode>, u32)> = (0..n).map(|_| new_node(3)).collect();
             let (b, bid) = new_node(3);
-            pool.borrow_mut().push((b.downgrade(), bid));
+            if !prof.no_pool {
+                pool.borrow_mut().push((b.downgrade(), bid));
+            }
             let mut tail: Rc<VNode> = Rc::null();
             while let Some((r, _)) = nodes.pop() {
                 if !tail.is_null() {
@@ -854,7 +925,35 @@ fn run_one(cfg: &RunCfg, prof: &Arc<Profile>, eseed: u64, idx: u64, st: &mut Bat
         let sh2 = sh.clone();
         let which = rng.below(sh.roots.len() as u64) as usize;
         let extra_rounds = rng.range(8, 16) as usize;
+        let revive = prof.choreo_weak_revive;
+        if revive {
+            // a destructed object, weak count 1 -> 0 (try_dealloc pending) -> revived -> republished
+            let (x, xid) = new_node(3);
+            let w = x.downgrade();
+            drop(x);
+            if drain(200).is_none() {
+                mon::harness_error("weak-revive setup: cannot drain");
+            }
+            let delay = rng.below(3) as usize;
+            {
+                let g = circ::cs();
+                sh.wroots[0].store(w, SeqCst, &g);
+                let ws = sh.wroots[0].load(SeqCst, &g);
+                sh.wroots[0].store(Weak::null(), SeqCst, &g);
+                let w2 = ws.counted();
+                sh.wroots[0].store(w2, SeqCst, &g);
+                g.flush();
+                let _ = xid;
+            }
+            CH_TARGET.store(circ::verif::global_epoch() + 2 - delay.min(1), SeqCst);
+        }
         bodies.push(Box::new(move || {
+            if revive {
+                mon::oplog(0, format!("(weak root 0 holds a revived Weak of a destructed object; try_dealloc pending) churn x{} with a stall once it is due", extra_rounds));
+                churn(extra_rounds);
+                CH_DONE.store(1, SeqCst);
+                return;
+            }
             {
                 let g = circ::cs();
                 mon::oplog(0, format!("Root({}).store(null)  (release); then churn x{} with a stall once the release is due", which, extra_rounds));
